@@ -21,8 +21,12 @@ Import ListNotations.
 Definition loc := nat.
 Definition cid := nat.
 Definition tag := nat.        (* index of a held C++ type; typeid(void) is `None : option tag` *)
-Definition value := Z.        (* an integer code of the held value *)
-Definition cell := (tag * value)%type.       (* holder<ValueType>{held} *)
+Definition value := Z.        (* an integer code of a value *)
+(* the held object: Some v = it has the value v; None = it has been the source of a move
+   (T x = any_cast<T&&>(std::move(a)) and T's move constructor leaves its source in a
+   valid but unspecified "moved-from" state) *)
+Definition hval := option value.
+Definition cell := (tag * hval)%type.        (* holder<ValueType>{held} *)
 Definition heap := list (loc * cell).
 
 Fixpoint hget (l : loc) (h : heap) : option cell :=
@@ -45,6 +49,9 @@ Fixpoint hset (l : loc) (c : cell) (h : heap) : heap :=
 
 Inductive slot := Dead | Live (content : option loc).
 Inductive fault := DoubleFree (l : loc) | UseAfterFree (l : loc).
+(* a construction of an object of a held type: (type, true) by its move constructor,
+   (type, false) by its copy constructor *)
+Definition ctor_event := (tag * bool)%type.
 
 Record state := mkSt {
   st_heap : heap;
@@ -52,10 +59,11 @@ Record state := mkSt {
   st_alog : list loc;         (* every location ever returned by `new holder` *)
   st_dlog : list loc;         (* every location ever passed to `delete` *)
   st_pool : list slot;
-  st_faults : list fault
+  st_faults : list fault;
+  st_ctors : list ctor_event  (* every copy / move construction of a held-type object, latest first *)
 }.
 
-Definition init (n : nat) : state := mkSt [] 0 [] [] (repeat Dead n) [].
+Definition init (n : nat) : state := mkSt [] 0 [] [] (repeat Dead n) [] [].
 
 Fixpoint upd {A : Type} (d : nat) (v : A) (l : list A) : list A :=
   match l, d with
@@ -66,9 +74,11 @@ Fixpoint upd {A : Type} (d : nat) (v : A) (l : list A) : list A :=
 
 Definition pget (d : cid) (st : state) : slot := nth d (st_pool st) Dead.
 Definition pset (d : cid) (s : slot) (st : state) : state :=
-  mkSt (st_heap st) (st_next st) (st_alog st) (st_dlog st) (upd d s (st_pool st)) (st_faults st).
+  mkSt (st_heap st) (st_next st) (st_alog st) (st_dlog st) (upd d s (st_pool st)) (st_faults st) (st_ctors st).
 Definition add_fault (f : fault) (st : state) : state :=
-  mkSt (st_heap st) (st_next st) (st_alog st) (st_dlog st) (st_pool st) (f :: st_faults st).
+  mkSt (st_heap st) (st_next st) (st_alog st) (st_dlog st) (st_pool st) (f :: st_faults st) (st_ctors st).
+Definition note_ctor (e : ctor_event) (st : state) : state :=
+  mkSt (st_heap st) (st_next st) (st_alog st) (st_dlog st) (st_pool st) (st_faults st) (e :: st_ctors st).
 
 Definition is_live (d : cid) (st : state) : bool :=
   match pget d st with Live _ => true | Dead => false end.
@@ -83,10 +93,12 @@ Definition set_content (d : cid) (c : option loc) (st : state) : state := pset d
 
 (* ---- primitives: new holder<T>(v), placeholder::clone, delete content *)
 
-(* new holder<ValueType>(value) *)
-Definition alloc (c : cell) (st : state) : loc * state :=
+(* new holder<ValueType>(value): holder(const ValueType&) copy-constructs `held` (mv = false),
+   holder(ValueType&&) move-constructs it (mv = true)                   (any.h:272, 277) *)
+Definition alloc (mv : bool) (c : cell) (st : state) : loc * state :=
   let l := st_next st in
-  (l, mkSt ((l, c) :: st_heap st) (S l) (l :: st_alog st) (st_dlog st) (st_pool st) (st_faults st)).
+  (l, mkSt ((l, c) :: st_heap st) (S l) (l :: st_alog st) (st_dlog st) (st_pool st) (st_faults st)
+           ((fst c, mv) :: st_ctors st)).
 
 (* other.content ? other.content->clone() : nullptr      (any.h:99, 288-291) *)
 Definition clone (p : option loc) (st : state) : option loc * state :=
@@ -94,7 +106,7 @@ Definition clone (p : option loc) (st : state) : option loc * state :=
   | None => (None, st)
   | Some l =>
       match hget l (st_heap st) with
-      | Some c => let (l', st') := alloc c st in (Some l', st')
+      | Some c => let (l', st') := alloc false c st in (Some l', st')   (* new holder(held): a copy *)
       | None => (None, add_fault (UseAfterFree l) st)
       end
   end.
@@ -105,7 +117,7 @@ Definition delete_content (p : option loc) (st : state) : state :=
   | None => st
   | Some l =>
       match hget l (st_heap st) with
-      | Some _ => mkSt (hrem l (st_heap st)) (st_next st) (st_alog st) (l :: st_dlog st) (st_pool st) (st_faults st)
+      | Some _ => mkSt (hrem l (st_heap st)) (st_next st) (st_alog st) (l :: st_dlog st) (st_pool st) (st_faults st) (st_ctors st)
       | None => add_fault (DoubleFree l) st
       end
   end.
@@ -127,8 +139,8 @@ Definition m_move_ctor (d s : cid) (st : state) : state :=
   set_content s None st1.
 
 (* any(const ValueType&) / any(ValueType&&) : content(new holder<...>(value))   any.h:125,138 *)
-Definition m_value_ctor (d : cid) (t : tag) (v : value) (st : state) : state :=
-  let (l, st1) := alloc (t, v) st in
+Definition m_value_ctor (mv : bool) (d : cid) (t : tag) (v : value) (st : state) : state :=
+  let (l, st1) := alloc mv (t, Some v) st in
   pset d (Live (Some l)) st1.
 
 (* any& swap(any& rhs) noexcept { std::swap(content, rhs.content); }  any.h:223 *)
@@ -164,8 +176,8 @@ Definition m_move_assign_nocheck (d s : cid) (st : state) : state :=
   delete_content tmp st2.
 
 (* operator=(ValueType&& rhs) { any(static_cast<ValueType&&>(rhs)).swap( *this); return *this; }   any.h:192 *)
-Definition m_value_assign (d : cid) (t : tag) (v : value) (st : state) : state :=
-  let (l, st1) := alloc (t, v) st in                (* any(rhs) *)
+Definition m_value_assign (mv : bool) (d : cid) (t : tag) (v : value) (st : state) : state :=
+  let (l, st1) := alloc mv (t, Some v) st in        (* any(rhs) *)
   let old := content d st1 in
   let st2 := set_content d (Some l) st1 in          (* .swap( *this) *)
   delete_content old st2.                           (* ~any() of the temporary *)
@@ -224,8 +236,21 @@ Definition any_cast_ref (d : cid) (t : tag) (st : state) : vres :=
   end.
 (* T any_cast(const any& operand) { return any_cast<const nonref&>(const_cast<any&>(operand)); }   any.h:405 *)
 Definition any_cast_cref (d : cid) (t : tag) (st : state) : vres := any_cast_ref d t st.
-(* T any_cast(any&& operand) { return any_cast<T>(operand); }         any.h:422 *)
+(* T any_cast(any&& operand) { return any_cast<T>(operand); }         any.h:422
+   with T a value type it returns a copy; with T = U&& (the form the library uses:
+   any_cast<MatrixXd&&>(std::move(data))) it returns static_cast<U&&>( *result), an rvalue
+   reference to the held object, from which the caller then moves *)
 Definition any_cast_rval (d : cid) (t : tag) (st : state) : vres := any_cast_ref d t st.
+(* any_cast<const T>(any* ): typeid ignores cv-qualifiers and the downcast is to
+   holder<remove_cv<const T>>                                         any.h:354 *)
+Definition any_cast_ptr_cq (d : cid) (t : tag) (st : state) : pres := any_cast_ptr d t st.
+(* any_cast<const T&>(any&): the lvalue form with nonref = const T    any.h:382-392 *)
+Definition any_cast_ref_cq (d : cid) (t : tag) (st : state) : vres :=
+  match any_cast_ptr_cq d t st with
+  | PNull => VThrow
+  | PTo l => VAt l
+  | PBad l => VBad l
+  end.
 
 (* ---- the executable step function over operation words *)
 
@@ -249,16 +274,29 @@ Inductive op :=
 | OCastCVal (d : cid) (t : tag)      (* any_cast<T>(const any&)    *)
 | OCastRVal (d : cid) (t : tag)      (* any_cast<T>(any&&)         *)
 | OSetPtr (d : cid) (t : tag) (v : value)   (* if (T* p = any_cast<T>(&a)) *p = v; *)
-| OSetRef (d : cid) (t : tag) (v : value).  (* any_cast<T&>(a) = v;                *)
+| OSetRef (d : cid) (t : tag) (v : value)   (* any_cast<T&>(a) = v;                *)
+| OCastPtrCq (d : cid) (t : tag)     (* any_cast<const T>(any* )   *)
+| OCastRefCq (d : cid) (t : tag)     (* const T& r = any_cast<const T&>(a), a non-const *)
+(* the form the library uses: T x = any_cast<T&&>(std::move(a))  (asg = false)
+   or  x = any_cast<T&&>(std::move(a)) for an existing x  (asg = true).
+   mvt: T's move operations leave their source moved-from (std::string, MatrixXd, ...);
+   false: moving a T is copying it (int, double, a class without move operations) *)
+| OCastXVal (asg : bool) (d : cid) (t : tag) (mvt : bool)
+(* the same members while the copy constructor of type tx throws *)
+| OValueThrow (d : cid) (t : tag) (v : value)           (* any(const T&), T's copy constructor throws *)
+| OValueAssignThrow (d : cid) (t : tag) (v : value)     (* a = (const T&), T's copy constructor throws *)
+| OCopyCtorArmed (d s : cid) (tx : tag)                 (* any(const any&) *)
+| OCopyAssignArmed (d s : cid) (tx : tag).              (* operator=(const any&) *)
 
 Inductive result :=
 | RUnit
 | RSkip                        (* the word asks for a constructor on a live index / a member of no object *)
 | RBool (b : bool)
 | RType (t : option tag)       (* None = typeid(void) *)
-| RPtr (v : option value)      (* None = nullptr; Some v = pointer to a held object that reads v *)
-| RVal (v : value)
+| RPtr (v : option hval)       (* None = nullptr; Some x = pointer to a held object that reads x *)
+| RVal (v : hval)
 | RThrow                       (* bad_any_cast *)
+| RExn                         (* the exception thrown by a held type's copy constructor leaves the expression *)
 | RFault (f : fault).
 
 Definition read_ptr (p : pres) (st : state) : result :=
@@ -275,18 +313,29 @@ Definition read_val (r : vres) (st : state) : result :=
   | VBad l => RFault (UseAfterFree l)
   end.
 
-Definition write_at (l : loc) (t : tag) (v : value) (st : state) : state :=
-  mkSt (hset l (t, v) (st_heap st)) (st_next st) (st_alog st) (st_dlog st) (st_pool st) (st_faults st).
+Definition write_at (l : loc) (t : tag) (x : hval) (st : state) : state :=
+  mkSt (hset l (t, x) (st_heap st)) (st_next st) (st_alog st) (st_dlog st) (st_pool st) (st_faults st) (st_ctors st).
+
+(* value forms that return T by value copy-construct the result from the held object *)
+Definition read_val_copy (t : tag) (r : vres) (st : state) : state * result :=
+  match read_val r st with
+  | RVal x => (note_ctor (t, false) st, RVal x)
+  | res => (st, res)
+  end.
+
+(* does container s hold an object of type tx? (then clone copy-constructs a tx) *)
+Definition holds_type (s : cid) (tx : tag) (st : state) : bool :=
+  match m_type s st with TTag t => Nat.eqb t tx | _ => false end.
 
 Definition step (o : op) (st : state) : state * result :=
   match o with
   | ODefault d => if is_free d st then (m_default d st, RUnit) else (st, RSkip)
-  | OValue _ d t v => if is_free d st then (m_value_ctor d t v st, RUnit) else (st, RSkip)
+  | OValue mv d t v => if is_free d st then (m_value_ctor mv d t v st, RUnit) else (st, RSkip)
   | OCopyCtor d s => if is_free d st && is_live s st then (m_copy_ctor d s st, RUnit) else (st, RSkip)
   | OMoveCtor d s => if is_free d st && is_live s st then (m_move_ctor d s st, RUnit) else (st, RSkip)
   | OCopyAssign d s => if is_live d st && is_live s st then (m_copy_assign d s st, RUnit) else (st, RSkip)
   | OMoveAssign d s => if is_live d st && is_live s st then (m_move_assign d s st, RUnit) else (st, RSkip)
-  | OValueAssign _ d t v => if is_live d st then (m_value_assign d t v st, RUnit) else (st, RSkip)
+  | OValueAssign mv d t v => if is_live d st then (m_value_assign mv d t v st, RUnit) else (st, RSkip)
   | OReset d => if is_live d st then (m_reset d st, RUnit) else (st, RSkip)
   | OSwap _ d s => if is_live d st && is_live s st then (m_swap d s st, RUnit) else (st, RSkip)
   | ODestroy d => if is_live d st then (m_destroy d st, RUnit) else (st, RSkip)
@@ -297,23 +346,53 @@ Definition step (o : op) (st : state) : state * result :=
       else (st, RSkip)
   | OCastPtr d t => (st, read_ptr (any_cast_ptr d t st) st)
   | OCastCPtr d t => (st, read_ptr (any_cast_cptr d t st) st)
-  | OCastVal d t => if is_live d st then (st, read_val (any_cast_ref d t st) st) else (st, RSkip)
+  | OCastVal d t => if is_live d st then read_val_copy t (any_cast_ref d t st) st else (st, RSkip)
   | OCastRef d t => if is_live d st then (st, read_val (any_cast_ref d t st) st) else (st, RSkip)
-  | OCastCVal d t => if is_live d st then (st, read_val (any_cast_cref d t st) st) else (st, RSkip)
-  | OCastRVal d t => if is_live d st then (st, read_val (any_cast_rval d t st) st) else (st, RSkip)
+  | OCastCVal d t => if is_live d st then read_val_copy t (any_cast_cref d t st) st else (st, RSkip)
+  | OCastRVal d t => if is_live d st then read_val_copy t (any_cast_rval d t st) st else (st, RSkip)
   | OSetPtr d t v =>
       match any_cast_ptr d t st with
       | PNull => (st, RBool false)
-      | PTo l => (write_at l t v st, RBool true)
+      | PTo l => (write_at l t (Some v) st, RBool true)
       | PBad l => (add_fault (UseAfterFree l) st, RFault (UseAfterFree l))
       end
   | OSetRef d t v =>
       if is_live d st then
         match any_cast_ref d t st with
         | VThrow => (st, RThrow)
-        | VAt l => (write_at l t v st, RUnit)
+        | VAt l => (write_at l t (Some v) st, RUnit)
         | VBad l => (add_fault (UseAfterFree l) st, RFault (UseAfterFree l))
         end
+      else (st, RSkip)
+  | OCastPtrCq d t => (st, read_ptr (any_cast_ptr_cq d t st) st)
+  | OCastRefCq d t => if is_live d st then (st, read_val (any_cast_ref_cq d t st) st) else (st, RSkip)
+  | OCastXVal asg d t mvt =>
+      if is_live d st then
+        match any_cast_rval d t st with                 (* T&& r = any_cast<T&&>(std::move(a)) *)
+        | VThrow => (st, RThrow)
+        | VAt l =>
+            match hget l (st_heap st) with
+            | Some (t', x) =>
+                (* the caller's T(T&&) / T::operator=(T&&) takes the value; the held object stays, moved-from *)
+                let st1 := write_at l t' (if mvt then None else x) st in
+                (if asg then st1 else note_ctor (t, true) st1, RVal x)
+            | None => (add_fault (UseAfterFree l) st, RFault (UseAfterFree l))
+            end
+        | VBad l => (add_fault (UseAfterFree l) st, RFault (UseAfterFree l))
+        end
+      else (st, RSkip)
+  (* a throwing copy constructor: in each of these members `new holder<T>(value)` /
+     `content->clone()` is evaluated before anything is modified (any.h:126, 99, 154, 194),
+     the runtime releases the storage of the holder, and the exception leaves the member *)
+  | OValueThrow d t v => if is_free d st then (st, RExn) else (st, RSkip)
+  | OValueAssignThrow d t v => if is_live d st then (st, RExn) else (st, RSkip)
+  | OCopyCtorArmed d s tx =>
+      if is_free d st && is_live s st then
+        if holds_type s tx st then (st, RExn) else (m_copy_ctor d s st, RUnit)
+      else (st, RSkip)
+  | OCopyAssignArmed d s tx =>
+      if is_live d st && is_live s st then
+        if holds_type s tx st then (st, RExn) else (m_copy_assign d s st, RUnit)
       else (st, RSkip)
   end.
 
@@ -332,7 +411,10 @@ Definition destroy_all (st : state) : state :=
 (* ---- value-level specification: a pool of plain values.  `step` is proved
         to refine it (C20_Proofs.step_refines_spec). *)
 
-Inductive view := VDead | VEmpty | VHolds (t : tag) (v : value) | VDangling (l : loc).
+(* VHolds t (Some v): holds a t with value v;  VHolds t None (= VMoved t): holds a t
+   whose value has been moved out *)
+Inductive view := VDead | VEmpty | VHolds (t : tag) (v : hval) | VDangling (l : loc).
+Notation VMoved t := (VHolds t None).
 
 Definition vslot (h : heap) (s : slot) : view :=
   match s with
@@ -361,7 +443,7 @@ Definition spec_cast_val (x : view) (t : tag) : result :=
   | _ => RThrow
   end.
 (* the value after "assign v through a cast to type t" *)
-Definition spec_set (x : view) (t : tag) (v : value) : view :=
+Definition spec_set (x : view) (t : tag) (v : hval) : view :=
   match x with
   | VHolds t' _ => if Nat.eqb t' t then VHolds t v else x
   | _ => x
@@ -372,7 +454,7 @@ Definition spec_holds (x : view) (t : tag) : bool :=
 Definition spec_step (o : op) (vs : list view) : list view * result :=
   match o with
   | ODefault d => if vfree d vs then (upd d VEmpty vs, RUnit) else (vs, RSkip)
-  | OValue _ d t v => if vfree d vs then (upd d (VHolds t v) vs, RUnit) else (vs, RSkip)
+  | OValue _ d t v => if vfree d vs then (upd d (VHolds t (Some v)) vs, RUnit) else (vs, RSkip)
   | OCopyCtor d s => if vfree d vs && vlive (vget s vs) then (upd d (vget s vs) vs, RUnit) else (vs, RSkip)
   | OMoveCtor d s => if vfree d vs && vlive (vget s vs) then (upd s VEmpty (upd d (vget s vs) vs), RUnit) else (vs, RSkip)
   | OCopyAssign d s => if vlive (vget d vs) && vlive (vget s vs) then (upd d (vget s vs) vs, RUnit) else (vs, RSkip)
@@ -380,7 +462,7 @@ Definition spec_step (o : op) (vs : list view) : list view * result :=
       if vlive (vget d vs) && vlive (vget s vs) then
         (if Nat.eqb d s then vs else upd s VEmpty (upd d (vget s vs) vs), RUnit)
       else (vs, RSkip)
-  | OValueAssign _ d t v => if vlive (vget d vs) then (upd d (VHolds t v) vs, RUnit) else (vs, RSkip)
+  | OValueAssign _ d t v => if vlive (vget d vs) then (upd d (VHolds t (Some v)) vs, RUnit) else (vs, RSkip)
   | OReset d => if vlive (vget d vs) then (upd d VEmpty vs, RUnit) else (vs, RSkip)
   | OSwap _ d s =>
       if vlive (vget d vs) && vlive (vget s vs) then (upd s (vget d vs) (upd d (vget s vs) vs), RUnit) else (vs, RSkip)
@@ -391,20 +473,40 @@ Definition spec_step (o : op) (vs : list view) : list view * result :=
       if vlive (vget d vs) then
         (vs, match vget d vs with VHolds t _ => RType (Some t) | VDangling l => RFault (UseAfterFree l) | _ => RType None end)
       else (vs, RSkip)
-  | OCastPtr d t | OCastCPtr d t => (vs, spec_cast_ptr (vget d vs) t)
-  | OCastVal d t | OCastRef d t | OCastCVal d t | OCastRVal d t =>
+  | OCastPtr d t | OCastCPtr d t | OCastPtrCq d t => (vs, spec_cast_ptr (vget d vs) t)
+  | OCastVal d t | OCastRef d t | OCastCVal d t | OCastRVal d t | OCastRefCq d t =>
       if vlive (vget d vs) then (vs, spec_cast_val (vget d vs) t) else (vs, RSkip)
   | OSetPtr d t v =>
       match vget d vs with
       | VDangling l => (vs, RFault (UseAfterFree l))
-      | x => (upd d (spec_set x t v) vs, RBool (spec_holds x t))
+      | x => (upd d (spec_set x t (Some v)) vs, RBool (spec_holds x t))
       end
   | OSetRef d t v =>
       if vlive (vget d vs) then
         match vget d vs with
         | VDangling l => (vs, RFault (UseAfterFree l))
-        | x => (upd d (spec_set x t v) vs, if spec_holds x t then RUnit else RThrow)
+        | x => (upd d (spec_set x t (Some v)) vs, if spec_holds x t then RUnit else RThrow)
         end
+      else (vs, RSkip)
+  | OCastXVal _ d t mvt =>
+      (* the container keeps a value of the same type; the value itself goes to the caller *)
+      if vlive (vget d vs) then
+        match vget d vs with
+        | VHolds t' x => if Nat.eqb t' t then (upd d (VHolds t' (if mvt then None else x)) vs, RVal x) else (vs, RThrow)
+        | VDangling l => (vs, RFault (UseAfterFree l))
+        | _ => (vs, RThrow)
+        end
+      else (vs, RSkip)
+  (* strong guarantee: when the copy constructor throws, nothing changes *)
+  | OValueThrow d t v => if vfree d vs then (vs, RExn) else (vs, RSkip)
+  | OValueAssignThrow d t v => if vlive (vget d vs) then (vs, RExn) else (vs, RSkip)
+  | OCopyCtorArmed d s tx =>
+      if vfree d vs && vlive (vget s vs) then
+        if spec_holds (vget s vs) tx then (vs, RExn) else (upd d (vget s vs) vs, RUnit)
+      else (vs, RSkip)
+  | OCopyAssignArmed d s tx =>
+      if vlive (vget d vs) && vlive (vget s vs) then
+        if spec_holds (vget s vs) tx then (vs, RExn) else (upd d (vget s vs) vs, RUnit)
       else (vs, RSkip)
   end.
 
